@@ -18,6 +18,7 @@ RULE = ("generated projects of 2..6 files: entry files with `out` statements, sh
         "alone. distinct = distinct (project, permutation); non-trivial = a batch of >= 2 files containing a failing "
         "file, a shared library or a file that is both built and imported.")
 RULE += (" " + 'Also: the shared library has a relative import of its own and files of the same relative name with other types sit next to the importers (one compatible, one not); a different library under the same relative name one directory down; the same base name in two directories.')
+RULE += (" " + 'Every command-line file also exports a function, a module and a tuple; files that import another command-line file call, instantiate and read them (also through map).')
 
 KINDS = ["entry", "entry-imports-lib", "entry-imports-local-lib", "entry-imports-local-lib", "entry-imports-entry", "lib-no-out", "syntax-error", "type-error", "runtime-error",
          "failing-out", "entry-yaml", "include-user"]
